@@ -20,7 +20,7 @@ RULE = ("Histories of 2-6 operations over one shared cache directory: run(inputs
         "with caching disabled. Invariant after every run: returned rows (all output columns, NaN==None==absent) and "
         "stats equal the cache-off result; no exception escapes. Crash points enumerated: for one cached batch EVERY "
         "byte prefix of its cache file through CacheManager.load_cache (must be miss-or-identical) and a stride of "
-        "prefixes end-to-end through rebalance. A crash matrix puts 4-5 cached batches into one directory and, for every entry x 7 crash states of that entry (deleted, empty, half, leftover temp file empty / partial / complete, complete temp file without final file), re-runs all batches. Non-trivial = history with >=1 cache hit after a configuration change "
+        "prefixes end-to-end through rebalance. One shard drives the command line (`run --cache --cache-dir --batch-size --min-confidence`) through sequences of runs with a crash state before the last one and compares its output file and .stats with the same command without --cache. A crash matrix puts 4-5 cached batches into one directory and, for every entry x 7 crash states of that entry (deleted, empty, half, leftover temp file empty / partial / complete, complete temp file without final file), re-runs all batches. Non-trivial = history with >=1 cache hit after a configuration change "
         "or >=1 run after a crash state; distinct = distinct histories / prefixes.")
 ASSUMPTIONS = [
     "crash model: a kill during a cache write leaves the file absent, empty, a byte prefix of the final content, or a "
@@ -317,6 +317,73 @@ def check_matrix(case, spec=None):
     return res
 
 
+def check_cli(case, spec=None):
+    """the command line with --cache / --cache-dir / --batch-size: a sequence of CLI runs over one cache directory
+    (changing --min-confidence in between, with a crash state applied before the last run) must write what the
+    same command writes without --cache."""
+    import csv
+    import pandas as pd
+    from synrbl.SynCmd import setup_argparser
+    res = CaseResult()
+    d = tempfile.mkdtemp(prefix="synverif-c12c-", dir="/var/tmp")
+    try:
+        src = os.path.join(d, "in.csv")
+        with open(src, "w", newline="") as f:
+            w = csv.writer(f)
+            w.writerow(["reaction", "tag"])
+            for i, r in enumerate(case["reactions"]):
+                w.writerow([r, "t%d" % i])
+        cache_dir = os.path.join(d, "cache")
+
+        def cli(out, t, cache):
+            argv = ["run", src, "-o", out, "-p", "1", "-b", str(case["batch_size"]), "--out-columns", "tag",
+                    "--min-confidence", str(t)]
+            if cache:
+                argv += ["--cache", "--cache-dir", cache_dir]
+            args = setup_argparser().parse_args(argv)
+            args.func(args)
+            df = pd.read_csv(out)
+            rows = [{k: (None if pipe.isnull(v) else v) for k, v in r.items() if not k.startswith("Unnamed")}
+                    for r in df.to_dict("records")]
+            return rows, json.load(open(out + ".stats"))
+        n = 0
+        for step, t in enumerate(case["thresholds"]):
+            if step == len(case["thresholds"]) - 1 and case.get("crash"):
+                apply_crash(cache_dir, case["crash"])
+                res.tag("cli-crash:" + case["crash"]["state"])
+            try:
+                ref = cli(os.path.join(d, "ref%d.csv" % step), t, False)
+                got = cli(os.path.join(d, "out%d.csv" % step), t, True)
+            except Exception as e:
+                res.fail("cli-cached-run-raises:" + type(e).__name__, "no exception", error=str(e)[:300], case=case, step=step)
+                return res
+            if any(pipe.is_timeout_issue(r) for r in ref[0] + got[0]):
+                res.inconclusive = "timeout text"
+                return res
+            compare(res, got[0], got[1], ref[0], ref[1], dict(step=step, threshold=t, case=case), ":cli")
+            n += 1
+            if res.failures:
+                return res
+        res.evals = max(1, n)
+        res.nontrivial = len(set(case["thresholds"])) > 1 or bool(case.get("crash"))
+        res.tag("cli-runs:%d" % n)
+    finally:
+        shutil.rmtree(d, ignore_errors=True)
+    return res
+
+
+@st.composite
+def cli_case(draw):
+    src = st.one_of(gen.mcs_prone_reaction(22, 3), gen.mcs_prone_reaction(22, 3),
+                    pp.closed_shell_rx(gen.any_reaction(max_heavy=22, max_mols=3, weights=(3, 4, 3, 0))))
+    rxs = [p[0] for p in draw(st.lists(src, min_size=2, max_size=5))]
+    ths = draw(st.lists(st.sampled_from(THRESHOLDS), min_size=2, max_size=3))
+    crash = draw(st.one_of(st.none(), st.fixed_dictionaries({
+        "which": st.integers(0, 9), "state": st.sampled_from(["delete", "empty", "truncate", "tmp-leftover"]),
+        "frac": st.floats(0, 1, allow_nan=False)})))
+    return {"reactions": rxs, "thresholds": ths, "batch_size": draw(st.integers(1, 3)), "crash": crash}
+
+
 MATRIX_BATCHES = [
     [["CCO>>CC=O", "CC(=O)OC.O>>CC(=O)O"], ["CCBr.[OH-]>>CCO"], ["CC(=O)OCC.O>>CC(=O)O", "CCO>>CCO", "C=C>>CC"],
      ["c1ccccc1C(=O)Cl.N>>c1ccccc1C(N)=O"], ["CC(C)=O>>CC(C)O", "CCCO>>CCC=O"]],
@@ -330,6 +397,7 @@ def shards(tier):
         out.append({"name": "crash-prefixes:%d" % i, "kind": "prefix", "which": i, "stride": 1})
     for i in range(2):
         out.append({"name": "crash-matrix:%d" % i, "kind": "matrix", "which": i, "weight": 5000})
+    out.append({"name": "hyp-cli", "kind": "cli", "examples": 12 if q else 150, "weight": 3000})
     return out
 
 
@@ -343,6 +411,10 @@ PREFIX_INPUTS = [
 def run_shard(spec, seed, tier, shard):
     if spec["kind"] == "hyp":
         explore(shard, history_case(), check_history, spec["examples"], seed)
+    elif spec["kind"] == "cli":
+        from .c05 import _memoise_cli_balancer
+        _memoise_cli_balancer()
+        explore(shard, cli_case(), check_cli, spec["examples"], seed)
     elif spec["kind"] == "matrix":
         if spec["which"] == 0:
             c = {"batches": MATRIX_BATCHES[0], "threshold": 0}
@@ -365,6 +437,10 @@ def run_shard(spec, seed, tier, shard):
 def shrink_shard(spec, seed, tier, bucket, index, cap_s):
     if spec["kind"] == "hyp":
         return shrink(history_case(), check_history, bucket, seed, index, spec["examples"], cap_s)
+    if spec["kind"] == "cli":
+        from .c05 import _memoise_cli_balancer
+        _memoise_cli_balancer()
+        return shrink(cli_case(), check_cli, bucket, seed, index, spec["examples"], cap_s)
     return None
 
 
@@ -373,6 +449,10 @@ def replay(case, spec):
         return check_history(case).failures
     if "batches" in case:
         return check_matrix(case).failures
+    if "thresholds" in case:
+        from .c05 import _memoise_cli_balancer
+        _memoise_cli_balancer()
+        return check_cli(case).failures
     return check_prefix(case).failures
 
 
